@@ -865,6 +865,10 @@ func (ctx Ctx) selectExpr(e *ast.SelectorExpr) coq.Expr {
 	// If it is, we need to translate to 'StructName__FuncName varName' instead
 	// of a struct access
 	_, isFuncType := (ctx.typeOf(e)).(*types.Signature)
+	if sel, ok := ctx.info.Selections[e]; ok && sel.Kind() == types.FieldVal {
+		// a field of function type is read like any other field
+		isFuncType = false
+	}
 	if isFuncType {
 		m := coq.MethodName(structInfo.name, e.Sel.Name)
 		ctx.dep.addDep(m)
